@@ -373,16 +373,18 @@ def jwe_epk_member(kind: int, member_i: int, okp: bool, present: bool, n: int, s
     return guarded(env, lambda: jwe.decrypt_compact(b"PROTSEG..IVSEG.CTSEG.TAGSEG", key, algorithms=ALLOWED), jwe_patches())
 
 
-def jwe_segments(alg_i: int, seg_fail: int, ek_present: bool, entry: int, has_zip: bool, zfail: bool, v0: bool, v1: bool) -> bool:
+def jwe_segments(alg_i: int, seg_fail: int, ek_present: bool, entry: int, has_zip: bool, zfail: int, v0: bool, v1: bool) -> bool:
     """
-    PRE: 0 <= alg_i <= 6 and 0 <= seg_fail <= 10 and 0 <= entry <= 3
+    PRE: 0 <= alg_i <= 6 and 0 <= seg_fail <= 10 and 0 <= entry <= 3 and 0 <= zfail <= 2
     POST: _
     """
     rt.tick()
     hdr = base_header(alg_i)
     if has_zip:
         hdr["zip"] = "DEF"
-    env = jwe_env(hdr, [v0, v1, v1], seg_fail=seg_fail, zfail=zfail)
+    env = jwe_env(hdr, [v0, v1, v1], seg_fail=seg_fail, zfail=zfail > 0)
+    if zfail == 2:
+        env.plaintext = b"\x78\x9c-corrupt-zlib-stream"       # authenticated data that starts like a zlib stream but is not one
     return guarded(env, lambda: _jwe_entry(entry, alg_i, ek_present), jwe_patches())
 
 
@@ -516,7 +518,7 @@ def _real_jwe(func, args):
     """dir / A128KW tokens with a VALID tag under the real key so that post-authentication code is reached when the model says so"""
     from vlib import refjose as R
     from joserfc.jwk import JWKRegistry
-    seg_fail, ek_present, entry, has_zip, zfail, json_fail = 0, True, 0, False, False, 0
+    seg_fail, ek_present, entry, has_zip, zfail, json_fail = 0, True, 0, False, 0, 0
     epk_invalid = False
     okp = False
     if func == "jwe_header_value":
@@ -581,7 +583,7 @@ def _real_jwe(func, args):
         text = b'{"alg":"dir","enc":"A128GCM","x":' + b"[" * 100000 + b"]" * 100000 + b"}"
     hseg = _b64(text)
     iv = bytes(12)
-    pt = b"\xff\xff\xff\xff" if zfail else (zlib.compress(b"plaintext")[2:-4] if has_zip else b"plaintext")
+    pt = (b"\xff\xff\xff\xff" if zfail == 1 else b"\x78\x9c\xff\xff\xff\xff") if zfail else (zlib.compress(b"plaintext")[2:-4] if has_zip else b"plaintext")
     try:
         ct, tag = R.content_encrypt("A128GCM", cek if len(cek) == 16 else bytes(16), iv, hseg, pt)
     except Exception:  # noqa
